@@ -28,6 +28,7 @@ class Interp(ExprMixin, CallMixin, StmtMixin):
         self.loop_ord = {}
         self.cur_class = None
         self.pending_list_type = None
+        self.module_imports = {}
 
 
 class FunctionResult:
@@ -42,6 +43,7 @@ class FunctionResult:
         self.models_used = []
         self.assumed = []
         self.n_loops = 0
+        self.partial = None
 
 
 def resolve_anchor(fn, anchor):
@@ -84,13 +86,16 @@ def verify_function(reg, frontend, con, prop=None):
         if n > res.n_loops:
             res.status, res.reason = "out-of-date", "contract names loop #%d but the function has %d loops" % (n, res.n_loops)
             return res
+    it.module_imports = frontend.imports(con.module)
     for k, v in frontend.module_constants(con.module).items():
         it.module_consts[k] = mk_int(v) if isinstance(v, int) else mk_real(v)
     for anchor, stmts in con.ghost.items():
         r = resolve_anchor(fn, anchor)
         if r is None:
-            res.status, res.reason = "out-of-date", "ghost anchor %r not found in the function" % anchor
-            return res
+            # the statement the ghost code was attached to is gone: verify the rest, but the result can at best be
+            # "undecided" (the ghost assertion was not checked) unless some other obligation fails
+            res.partial = "ghost anchor %r not found in the function (contract out of date)" % anchor
+            continue
         it.ghost_at.setdefault(r, []).extend(stmts)
     for anchor, ty in con.loop_types.items():
         pass
@@ -171,11 +176,117 @@ def run_path(it, fn, st, con):
             for i, e in enumerate(con.raises[r.exc]):
                 g = it.truthy(it.spec_text(e, st), st)
                 ctx.oblige(st, "raises:%s" % r.exc, g, line=r.line, text=e, tag="#%d" % i)
+            check_frame(it, st, con, "frame:%s" % r.exc)
         else:
             ctx.oblige(st, "no-raise:%s" % r.exc, z3.BoolVal(False), line=r.line,
                        text="exception %s is not among the documented outcomes" % r.exc)
     except (BreakSig, ContinueSig):
         raise Unsupported("break/continue outside a loop")
+
+
+def _base_key(key):
+    return key[:-1] if key.endswith("?") else (key[:-2] if key.endswith("!s") else key)
+
+
+def frame_allowed(it, con, key, r, st):
+    """disjunction of the locations of heap array `key` that the contract's modifies clauses permit to change (entry state)"""
+    import ast as _ast
+    base = _base_key(key)
+    tmp = State(it.ctx)
+    tmp.env = dict(st.entry.env)
+    tmp.heap = dict(st.entry.heap)
+    tmp.entry = st.entry
+    alts = []
+    i = it.ctx.fresh("i", z3.IntSort())
+    for m in con.modifies:
+        m = m.strip()
+        if m == base or m == key:
+            return None
+        if m.startswith("$"):
+            continue
+        if m.count(".") == 1 and m.split(".")[0] in it.reg.classes and tmp.env.get(m.split(".")[0]) is None:
+            fk = it.field_key(*m.split("."))
+            if fk and fk[0] == base:
+                return None
+            continue
+        node = _ast.parse(m, mode="eval").body
+        if isinstance(node, _ast.Call) and isinstance(node.func, _ast.Name) and node.func.id == "list":
+            lst = it.ev(node.args[0], tmp, True)
+            if base in (it.content_key(lst.ty.arg), it.len_key(lst.ty.arg)):
+                alts.append(r == lst.t)
+            continue
+        if isinstance(node, _ast.Attribute):
+            base_node, fname = node.value, node.attr
+        elif isinstance(node, _ast.Subscript):
+            base_node, fname = node.value, node.slice.value
+        else:
+            raise Unsupported("modifies clause %r" % m)
+        path = [fname]
+        each = None
+        bn = base_node
+        if isinstance(bn, _ast.Attribute) and isinstance(bn.value, _ast.Call) and getattr(bn.value.func, "id", None) == "each":
+            path = [bn.attr, fname]
+            each = bn.value
+        elif isinstance(bn, _ast.Call) and getattr(bn.func, "id", None) == "each":
+            each = bn
+        if each is not None:
+            lst = it.ev(each.args[0], tmp, True)
+            e, arr, off, ln = it.seq_of(lst, tmp, True)
+            if len(path) == 1:
+                fk = it.field_key(e.arg, path[0])
+                if fk[0] == base:
+                    alts.append(z3.Exists([i], z3.And(0 <= i, i < ln, arr[i + off] == r)))
+            else:
+                k1, t1 = it.field_key(e.arg, path[0])
+                fk = it.field_key(t1.arg, path[1])
+                if fk[0] == base:
+                    a1 = tmp.harr(k1, it.heap_sort(k1))
+                    alts.append(z3.Exists([i], z3.And(0 <= i, i < ln, a1[arr[i + off]] == r)))
+            continue
+        obj = it.ev(base_node, tmp, True)
+        fk = it.field_key(obj.ty.arg, fname)
+        if fk and fk[0] == base:
+            alts.append(r == obj.t)
+    return alts
+
+
+def check_frame(it, st, con, kind="frame", assume_keys=None):
+    """everything outside the modifies clauses (and outside objects allocated by this call) is unchanged.
+    With assume_keys the same formulas are *assumed* for the given (just havocked) arrays: the frame condition is an
+    implicit invariant of every loop (asserted again at each back edge)."""
+    ctx = it.ctx
+    if con.options.get("no_frame_check") or con.target.startswith("lemma:"):
+        return
+    a0 = st.entry.heap.get("$alloc", ctx.initial_array("$alloc"))
+    for key in sorted(set(st.heap) | set(st.entry.heap)):
+        if key == "$alloc":
+            continue
+        cur = st.heap.get(key)
+        old = st.entry.heap.get(key, ctx.initial.get(key))
+        if cur is None or old is None or cur is old or cur.eq(old):
+            continue
+        if assume_keys is not None and key not in assume_keys:
+            continue
+        if key.startswith("$cv."):
+            if key in con.modifies:
+                continue
+            if assume_keys is not None:
+                st.assume(cur == old)
+            else:
+                ctx.oblige(st, kind, cur == old, line=None, text="class variable %s unchanged" % key[4:], tag=key)
+            continue
+        r = ctx.fresh("r", z3.IntSort())
+        alts = frame_allowed(it, con, key, r, st)
+        if alts is None:
+            continue
+        from .calls import pattern_ok
+        pats = [t for t in (cur[r], old[r]) if pattern_ok(t)]
+        body = z3.Or(r >= a0, r < 1, cur[r] == old[r], *alts)
+        goal = z3.ForAll([r], body, patterns=pats[:1]) if pats else z3.ForAll([r], body)
+        if assume_keys is not None:
+            st.assume(goal)
+            continue
+        ctx.oblige(st, kind, goal, line=None, text="only the locations named in `modifies` change in %s" % key, tag=key)
 
 
 def check_post(it, st, con, result):
@@ -192,6 +303,7 @@ def check_post(it, st, con, result):
     for i, e in enumerate(con.ensures):
         g = it.truthy(it.spec_text(e, st), st)
         ctx.oblige(st, "post", g, line=line, text=e, tag="#%d" % i)
+    check_frame(it, st, con)
 
 
 def axiom_formula(it, ax):
